@@ -416,6 +416,17 @@ variant("linelimit-switch-form",
 		case '\\n':
 			r.curLineLength = 0
 		}"""))
+variant("reset-envelope-helper",
+  ("conn.go", """	c.fromReceived = false
+	c.recipients = nil
+}""", """	c.clearEnvelope()
+}
+
+// clearEnvelope forgets sender and recipients. The caller holds c.locker.
+func (c *Conn) clearEnvelope() {
+	c.fromReceived = false
+	c.recipients = nil
+}"""))
 if sys.argv[1:] == ['--export']:
     out = [{"id": "benign-" + n, "edits": [{"file": f, "old": o, "new": w} for f, o, w in V[n]]} for n in V]
     json.dump(out, open('/verif/liveness/benign.json', 'w'), indent=1)
